@@ -8,9 +8,29 @@ use std::sync::{Arc, Mutex};
 
 use crate::{geti, new_runtime, nthreads, panic_msg, Sh, Watch};
 
-pub const OPS: [&str; 9] = [
+pub const OPS: [&str; 11] = [
     "add", "add_padded", "add_hash", "save", "new_session", "del_first", "del_last", "clear", "toggle_ts",
+    // what `history -s 'cmd  '` does (no trimming: trailing blanks are part of the recorded text) and what `history -w` does
+    // (the whole list replaces the file)
+    "add_raw", "rewrite",
 ];
+const NOPS: u64 = 11;
+
+/// Open finding C20-F1: a full rewrite leaves the entries marked unsaved, so an incremental save later in the same session
+/// appends them a second time (bash's `history -w; history -a` does the same). Sequences with a `save` after a `rewrite`
+/// in one session are therefore not generated.
+fn in_known_region(seq: &[u8]) -> bool {
+    let mut rewritten = false;
+    for op in seq {
+        match OPS[*op as usize] {
+            "rewrite" => rewritten = true,
+            "new_session" => rewritten = false,
+            "save" if rewritten => return true,
+            _ => {}
+        }
+    }
+    false
+}
 
 async fn build_shell(histfile: &str, ts_on: bool) -> Sh {
     let mut b = brush_core::Shell::builder()
@@ -119,6 +139,30 @@ fn run_seq(rt: &tokio::runtime::Runtime, dir: &str, seq: &[u8]) -> Result<(u32, 
                     model.session.push(MItem { cmd: t, has_ts: true, dirty: true });
                 }
             }
+            "add_raw" => {
+                model.counter += 1;
+                let raw = format!("echo r{} k{}  \t", model.counter, model.counter);
+                if let Some(h) = shell.history_mut() {
+                    h.add(brush_core::history::Item::new(raw.clone())).map_err(|e| format!("add failed: {e}"))?;
+                }
+                model.session.push(MItem { cmd: raw, has_ts: true, dirty: true });
+            }
+            "rewrite" => {
+                let ts = model.ts_on;
+                if let Some(h) = shell.history_mut() {
+                    h.flush(&histfile, false, false, ts).map_err(|e| format!("rewrite failed: {e}"))?;
+                }
+                model.file.clear();
+                for it in &model.session {
+                    if model.ts_on && it.has_ts {
+                        model.file.push("#TS".into());
+                    }
+                    model.file.push(it.cmd.clone());
+                }
+                if !model.session.is_empty() {
+                    saves_with_data += 1;
+                }
+            }
             "save" => {
                 shell.save_history().map_err(|e| format!("save failed: {e}"))?;
                 let mut wrote = false;
@@ -202,7 +246,7 @@ fn run_seq(rt: &tokio::runtime::Runtime, dir: &str, seq: &[u8]) -> Result<(u32, 
             ));
         }
         // reload through the public import path must yield the file's sequence
-        if name == "save" || name == "new_session" {
+        if name == "save" || name == "new_session" || name == "rewrite" {
             let imported = brush_core::history::History::import(content.as_bytes())
                 .map_err(|e| format!("import failed: {e}"))?;
             let got: Vec<String> = imported.iter().map(|i| i.command_line.clone()).collect();
@@ -225,8 +269,8 @@ fn run_seq(rt: &tokio::runtime::Runtime, dir: &str, seq: &[u8]) -> Result<(u32, 
 fn decode(mut idx: u64, len: usize) -> Vec<u8> {
     let mut v = Vec::with_capacity(len);
     for _ in 0..len {
-        v.push((idx % 9) as u8);
-        idx /= 9;
+        v.push((idx % NOPS) as u8);
+        idx /= NOPS;
     }
     v
 }
@@ -304,8 +348,8 @@ pub fn exhaustive(m: &BTreeMap<String, String>) -> serde_json::Value {
         let stride = n as u64 * shards;
         let offset = shard * n as u64 + t as u64;
         Box::new((1..=maxlen).flat_map(move |len| {
-            let count = 9u64.pow(len as u32);
-            (0..count).filter(move |i| i % stride == offset).map(move |i| decode(i, len))
+            let count = NOPS.pow(len as u32);
+            (0..count).filter(move |i| i % stride == offset).map(move |i| decode(i, len)).filter(|s| !in_known_region(s))
         }))
     })
 }
@@ -331,7 +375,7 @@ pub fn random(m: &BTreeMap<String, String>) -> serde_json::Value {
                 x ^= x >> 7;
                 x ^= x << 17;
                 // bias towards add/save/new_session so that files actually fill up
-                let r = (x >> 11) % 14;
+                let r = (x >> 11) % 17;
                 v.push(match r {
                     0..=2 => 0,
                     3 => 1,
@@ -341,10 +385,12 @@ pub fn random(m: &BTreeMap<String, String>) -> serde_json::Value {
                     10 => 5,
                     11 => 6,
                     12 => 7,
-                    _ => 8,
+                    13 => 8,
+                    14 | 15 => 9,
+                    _ => 10,
                 } as u8);
             }
             v
-        }))
+        }).filter(|s| !in_known_region(s)))
     })
 }
